@@ -13,6 +13,17 @@ possibly torn; a process kill keeps all of them).  Proved for every commit conte
   from the source on every run, have exactly the safe shape (all data writes, sync, header into the
   other slot, sync) — this is the obligation that failed for the pinned release (D8) and holds after
   the `fix:` commit; `pinned_order_not_atomic` is the machine-checked witness of that defect.
+Assumptions, stated where the theorems are (they are also in the evidence file):
+* A-disk: a 512-byte sector is written atomically; no write issued after a COMPLETED sync is durable
+  before one issued before it; the page cache is coherent with the map.
+* Quiescent start: every statement starts from `{durable := c.img0, pending := []}` — no unsynced write
+  is outstanding when the commit begins.  After a commit whose final sync FAILED this is an assumption
+  about the kernel (what happens to dirty pages after a failed fsync), not something the model shows;
+  C11's fault runs exercise the next commits on the real kernel but cannot exhibit a power loss there.
+* File length: extending the file (`.grow`) and the durability of the new length are not modelled —
+  `commitOps` drops the step; the crash images of the correspondence run are cut to the pages in use.
+* NoTornCollision (`Io.lean`): a header page mixing old and new 8-byte words does not verify its checksum
+  (evaluated on every tear the run synthesises).
 `CommitCtx.Ok.cow` (the commit writes no page of the snapshot it started from) is Jamm.Props.C12
 `previous_snapshot_intact` / C03 on the protocol model, and is checked per commit on real files.
 -/
